@@ -108,6 +108,12 @@ func C10Base(t *rapid.T) *world.Scenario {
 			if st.Req.Uncond.Body.Len < 30 {
 				st.Req.Uncond.Body.Len = 30
 			}
+			if Pct(t, lbl+"-failhold", 40) {
+				// the caller reads what there is of the body only later, after other responses
+				// have passed through the cache
+				st.Req.HoldBody = true
+				st.Req.Uncond.Body.Class = "rand"
+			}
 		}
 	}
 	// hosts of every form a Go client can express
